@@ -72,6 +72,17 @@ pair and `a.items() == b.items()` passes.  `len(a) == len(b)` and other look-ali
 `not (a ^ b)`, two-way inclusion etc. pass; expressions outside the
 interpreter's language stay unknown idioms.
 
+Readings shared by the rules (second preserving wave, k2-c11-*): a module-level
+name bound exactly once to a str / number literal is its value
+(_module_literal: `_WILDCARD = '*'` ... `x == _WILDCARD`; R1, R4, R11, R13,
+R16); R3 counts a call `self.<helper>()` as the cache_clear() when every
+normal path of that same-class helper (transitively, depth <= 3) performs
+`self._resolve.cache_clear()`; R1's parameter-value clause reads
+`any(a != b for n in names)` / `all(a == b ...)` / a filtered comprehension /
+a local bound once to one of them as the loop with the early return it
+replaces; R4 does not blame a lookup observed behind a test that reads the
+requested type and could not be evaluated (unknown idiom instead).
+
 Roles are found by def-use from contract names (attribute names main_type /
 subtype / params / quality, parameter positions of the resolver, the tuple
 positions of best_match's candidates) - never from local variable names.
@@ -86,8 +97,8 @@ from .. import flow
 from ..cfg import cfg_of
 from ..escape import Escape
 from ..flow import ERROR
-from ..model import (UNKNOWN, AnalysisError, AnchorError, Class, Func, UnknownIdiom, dotted, func_owner_class, short, stdlib_source,
-                     unparse, walk_no_nested)
+from ..model import (UNKNOWN, AnalysisError, AnchorError, Class, Func, UnknownIdiom, dotted, func_owner_class, local_names, short,
+                     stdlib_source, unparse, walk_no_nested)
 from .common import enclosing_map, implied, is_self_attr, single, walk_self
 
 MEDIATYPES = 'falcon.util.mediatypes'
@@ -156,6 +167,75 @@ def _unwrap_cast(e):
     while isinstance(e, ast.Call) and isinstance(e.func, (ast.Name, ast.Attribute)) and \
             (dotted(e.func) or '').split('.')[-1] == 'cast' and len(e.args) == 2:
         e = e.args[1]
+    return e
+
+
+_BINDING_COUNT_CACHE: Dict[Tuple[int, str], int] = {}
+
+
+def _module_binding_count(m, name: str) -> int:
+    """How often the module binds `name`: top-level stores (also inside top-level if/try/with/for blocks), plus a
+    large number when some def of the module declares it `global` (it may then be rebound at run time)."""
+    key = (id(m.tree), name)
+    if key not in _BINDING_COUNT_CACHE:
+        n = 0
+        stack = list(m.tree.body)
+        while stack:
+            x = stack.pop()
+            if isinstance(x, (ast.FunctionDef, ast.AsyncFunctionDef, ast.ClassDef)):
+                if x.name == name:
+                    n += 1
+                for g in ast.walk(x):
+                    if isinstance(g, ast.Global) and name in g.names:
+                        n += 100
+                continue
+            if isinstance(x, ast.Name) and isinstance(x.ctx, (ast.Store, ast.Del)) and x.id == name:
+                n += 1
+            elif isinstance(x, (ast.Import, ast.ImportFrom)):
+                n += sum(1 for a in x.names if (a.asname or a.name).split('.')[0] == name)
+            stack.extend(ast.iter_child_nodes(x))
+        _BINDING_COUNT_CACHE[key] = n
+    return _BINDING_COUNT_CACHE[key]
+
+
+def _module_literal(p, f: Func, e):
+    """Reading ability (3): a module-level name (of this or of an imported package module) that is bound exactly ONCE
+    to a str / number literal is its value - `_WILDCARD = '*'` ... `x == _WILDCARD` reads like `x == '*'`.
+    UNKNOWN for locals, parameters, rebound names and anything that does not fold to a scalar."""
+    if not isinstance(e, (ast.Name, ast.Attribute)) or p is None:
+        return UNKNOWN
+    m = f.module
+    if isinstance(e, ast.Name):
+        g = f
+        while g is not None:
+            if e.id in local_names(g):
+                return UNKNOWN
+            g = g.parent
+    if isinstance(e, ast.Name) and e.id in m.consts:
+        owner, name = m, e.id
+    else:
+        q = p.resolve_expr(m, e, f)
+        if not q:
+            return UNKNOWN
+        head, _, name = q.rpartition('.')
+        owner = p.modules.get(head)
+        if owner is None or name not in owner.consts:
+            return UNKNOWN
+    if _module_binding_count(owner, name) != 1:
+        return UNKNOWN
+    v = p.fold(owner, owner.consts[name])
+    if isinstance(v, bool) or not isinstance(v, (str, int, float)):
+        return UNKNOWN
+    return v
+
+
+def _lit(p, f: Func, e):
+    """`e` as a literal node: itself when it is a Constant, a Constant of the value for a once-bound module-level
+    literal name, else `e` unchanged."""
+    if isinstance(e, (ast.Name, ast.Attribute)):
+        v = _module_literal(p, f, e)
+        if v is not UNKNOWN:
+            return ast.copy_location(ast.Constant(value=v), e)
     return e
 
 
@@ -953,10 +1033,11 @@ class _TypeModel:
 
     MAX_STATES = 256
 
-    def __init__(self, roles: _Roles, other: str):
+    def __init__(self, roles: _Roles, other: str, project=None):
         self.roles = roles
         self.f = roles.f
         self.other = other
+        self.p = project
         self._memo: Dict[int, bool] = {}
         self.cell = {}
         self.out: List[_TOutcome] = []
@@ -1044,11 +1125,13 @@ class _TypeModel:
         if isinstance(e, ast.Attribute):
             if e.attr in _T_ATTRS and isinstance(e.value, ast.Name) and e.value.id in ('self', self.other):
                 return self.cell[(e.value.id == 'self', e.attr)]
-            return self._opaque(e)
+            v = _module_literal(self.p, self.f, e)
+            return v if v is not UNKNOWN else self._opaque(e)
         if isinstance(e, ast.Name):
             if e.id in env:
                 return env[e.id]
-            return self._opaque(e)
+            v = _module_literal(self.p, self.f, e)         # _WILDCARD = '*' at module level is '*'
+            return v if v is not UNKNOWN else self._opaque(e)
         if isinstance(e, (ast.Tuple, ast.List, ast.Set)):
             if any(isinstance(x, ast.Starred) for x in e.elts):
                 return self._opaque(e)
@@ -1232,7 +1315,7 @@ class _TypeModel:
 
 def _type_table(run, ms: Func, roles: _Roles, other: str, comp_with_role, lower):
     """R1 (b)/(d) for the two leading criteria: the REQUIRED table above, cell by cell."""
-    tm = _TypeModel(roles, other)
+    tm = _TypeModel(roles, other, run.project)
     cells = [(sm, om, ss, os_) for sm in _T_ATOMS for om in _T_ATOMS for ss in _T_ATOMS for os_ in _T_ATOMS]
     try:
         table = {c: tm.outcomes(c) for c in cells}
@@ -1558,13 +1641,72 @@ def r1_score_order(run):
             return False
         return atom
 
+    def once_bound(name: ast.AST):
+        """the value of a local that is bound exactly once, by a plain assignment (reading ability 1)"""
+        if isinstance(name, ast.Name) and isinstance(name.ctx, ast.Load):
+            binds = _assignments(ms.node, name.id)
+            if len(binds) == 1 and binds[0][1] is not None and name.id not in _param_names(ms, skip_self=False):
+                return binds[0][1]
+        return None
+
+    def quantified(e):
+        """any(<comprehension>) / all(<comprehension>) over one element expression -> ('any'|'all', comprehension)"""
+        if isinstance(e, ast.Call) and isinstance(e.func, ast.Name) and e.func.id in ('any', 'all') and len(e.args) == 1 and not e.keywords \
+                and isinstance(e.args[0], (ast.GeneratorExp, ast.ListComp, ast.SetComp)) and p.resolve_callable(ms, e.func) == 'builtins.' + e.func.id:
+            return e.func.id, e.args[0]
+        return None
+
+    def for_some_element(expr, truth: bool, a, depth=0) -> Optional[bool]:
+        """`expr` came out `truth`: the truth the comparison `a` has for this evaluation or - when it sits inside a
+        quantifier - for AT LEAST ONE element:  any(E for ..) true -> E true for some element;  all(E for ..) false ->
+        E false for some element;  a filtered list / set comprehension that is truthy -> its filters true for some
+        element;  a local bound once to one of those is that expression.  `any` false / `all` true speak about every
+        element (possibly none): no witness, None.  This reads `if any(x != y for n in names): return S` as the loop
+        `for n in names: if x != y: return S` it replaces."""
+        r = implied(expr, truth, lambda e: e is a)
+        if r is not None or depth > 3:
+            return r
+        for sub in walk_self(expr):
+            if sub is expr and not (isinstance(sub, (ast.Name, ast.Call, ast.ListComp, ast.SetComp))):
+                continue
+            q, bound = quantified(sub), once_bound(sub)
+            comp = sub if isinstance(sub, (ast.ListComp, ast.SetComp)) else None
+            if q is None and bound is None and comp is None:
+                continue
+            ts = implied(expr, truth, lambda e, sub=sub: e is sub)
+            if ts is None:
+                continue
+            if bound is not None:
+                r = for_some_element(bound, ts, a, depth + 1)
+            elif q is not None:
+                how, c = q
+                r = None
+                if (how == 'any') == ts:
+                    r = for_some_element(c.elt, ts, a, depth + 1)
+                    if r is None:
+                        for g in c.generators:
+                            for cond in g.ifs:
+                                r = for_some_element(cond, True, a, depth + 1) if r is None else r
+            else:
+                r = None
+                if ts:
+                    for g in comp.generators:
+                        for cond in g.ifs:
+                            r = for_some_element(cond, True, a, depth + 1) if r is None else r
+            if r is not None:
+                return r
+        return None
+
     for kind in ('params',):                  # main type / subtype mismatches: decided cell by cell in _type_table()
         atom = cmp_atom(kind)
         n_edges = 0
         for n in cfg.live_nodes():
             if n.kind != 'test':
                 continue
-            atoms = [x for x in walk_self(n.ast) if atom(x)]
+            srcs = [n.ast]
+            for _round in range(3):
+                srcs += [v for v in (once_bound(x) for s_ in list(srcs) for x in walk_self(s_)) if v is not None and not any(v is y for y in srcs)]
+            atoms = list({id(x): x for s_ in srcs for x in walk_self(s_) if atom(x)}.values())
             if not atoms:
                 continue
             for a in atoms:
@@ -1572,7 +1714,7 @@ def r1_score_order(run):
                 for (y, l) in cfg.succ[n.id]:
                     if l not in ('T', 'F'):
                         continue
-                    r = implied(n.ast, l == 'T', lambda e, a=a: e is a)
+                    r = for_some_element(n.ast, l == 'T', a)
                     if r is None or r != mismatch_truth:
                         continue
                     n_edges += 1
@@ -2416,6 +2558,52 @@ class _Hierarchy:
             self._writer_memo[k] = bool(self.write_sites(d))
         return self._writer_memo[k]
 
+    # ------------------------------------------------- clearing helpers
+    def clearing_call(self, d: _MethodDef, call: ast.Call, depth=0) -> Tuple[bool, bool]:
+        """`self.<helper>(...)` in `d`, dispatched as seen from the receiver's class, whose body performs
+        `self._resolve.cache_clear()` -> (on every normal path to its exit, on every path to an exceptional exit).
+        (False, False) for anything else.  The helper is followed through further same-class helpers, depth <= 3."""
+        f = call.func
+        if d.selfname is None or not (isinstance(f, ast.Attribute) and isinstance(f.value, ast.Name) and f.value.id == d.selfname):
+            return (False, False)
+        t = self.lookup(f.attr)
+        if t is None or t.func is None or t.selfname is None or t.node is d.node:
+            return (False, False)
+        return self.clears_always(t, depth)
+
+    def clears_always(self, t: _MethodDef, depth=0) -> Tuple[bool, bool]:
+        memo = self.__dict__.setdefault('_clears_memo', {})
+        k = id(t.node)
+        if k in memo:
+            return memo[k]
+        memo[k] = (False, False)       # recursion guard
+        if depth >= 3 or t.func is None or t.func.is_async or any(isinstance(n, (ast.Yield, ast.YieldFrom)) for n in walk_self(t.node)):
+            return memo[k]
+        cfg = cfg_of(t.func, self.p)
+        on_normal, on_exc = set(), set()
+        for n in cfg.live_nodes():
+            for c in n.calls():
+                if _is_clear(c, t.selfname, t.node):
+                    on_normal.add(n.id)
+                    on_exc.add(n.id)       # the clearing itself does not fail half-way (same reading as in the caller)
+                else:
+                    nm, ex = self.clearing_call(t, c, depth + 1)
+                    if nm:
+                        on_normal.add(n.id)
+                    if nm and ex:
+                        on_exc.add(n.id)
+
+        def edge_ok(x, y, l):
+            if x in on_exc and l == 'exc':
+                return False
+            if x in on_normal and l != 'exc':
+                return False
+            return True
+
+        seen = flow.reachable(cfg, [cfg.entry], edge_filter=edge_ok)
+        memo[k] = (cfg.exit not in seen, cfg.xexit not in seen)
+        return memo[k]
+
     # ------------------------------------------------- constructor bypass
     def bypass_sites(self, d: _MethodDef) -> List[ast.stmt]:
         """Statements creating an instance of the receiver's class without
@@ -2431,10 +2619,24 @@ class _Hierarchy:
         return out
 
 
-def _is_clear(call: ast.Call, selfname='self') -> bool:
-    f = call.func
-    return (isinstance(f, ast.Attribute) and f.attr == 'cache_clear' and isinstance(f.value, ast.Attribute)
-            and f.value.attr == RESOLVER and isinstance(f.value.value, ast.Name) and f.value.value.id == selfname)
+def _is_clear(call: ast.Call, selfname='self', fnode=None) -> bool:
+    """`self._resolve.cache_clear()` - also through a local of `fnode` bound once to the resolver
+    (`r = self._resolve; r.cache_clear()`) or to the bound method (`clear = self._resolve.cache_clear; clear()`)."""
+    def once(e):
+        if isinstance(e, ast.Name) and fnode is not None:
+            binds = _assignments(fnode, e.id)
+            if len(binds) == 1 and binds[0][1] is not None:
+                return _unwrap_cast(binds[0][1])
+        return e
+
+    def is_resolver(e):
+        e = once(_unwrap_cast(e))
+        return isinstance(e, ast.Attribute) and e.attr == RESOLVER and isinstance(e.value, ast.Name) and e.value.id == selfname
+
+    f = once(call.func)
+    if f is not call.func and (call.args or call.keywords):
+        return False
+    return isinstance(f, ast.Attribute) and f.attr == 'cache_clear' and is_resolver(f.value)
 
 
 def _is_fresh_resolver(stmt, selfname='self') -> bool:
@@ -2540,12 +2742,20 @@ def r3_cache_coherence(run):
         kinds = {k: H.site_kind.get(k, 'item') for k in site_ids}
         has_bulk = any(k != 'item' for k in kinds.values())
 
-        def lab(n, site_ids=site_ids, sn=sn, kinds=kinds):
+        def lab(n, site_ids=site_ids, sn=sn, kinds=kinds, d=d):
             out = []
             if n.kind == 'stmt' and _is_fresh_resolver(n.ast, sn):
                 out.append('FRESH')
             for c in n.calls():
-                if _is_clear(c, sn):
+                helper = H.clearing_call(d, c) if not _is_clear(c, sn, d.node) else (False, False)
+                if helper[0]:
+                    # a same-class helper whose every normal path performs the cache_clear(): completing the call
+                    # is the clearing; its exceptional exits answer a pending partial write only when they, too,
+                    # all come after the clearing
+                    if helper[1]:
+                        out.append('^UNPARTIAL')
+                    out.append('CLEAR')
+                elif _is_clear(c, sn, d.node):
                     # the clearing itself cannot fail half-way: on the exceptional edges out of this node a
                     # pending partial write counts as answered, the normal bookkeeping happens on completion
                     out.append('^UNPARTIAL')
@@ -2874,10 +3084,14 @@ class _NoValue(Exception):
 class _EffectiveTypes:
     """A concrete interpreter of the string-valued locals of one function over its CFG."""
 
-    def __init__(self, cfg, observe: Dict[int, ast.AST]):
+    UNDECIDED = '<undecided test>'             # pseudo-local: a test that READS a tracked text could not be evaluated on this path
+
+    def __init__(self, cfg, observe: Dict[int, ast.AST], project=None, func: Optional[Func] = None):
         self.cfg = cfg
         self.observe = observe                 # node id -> expression whose value is recorded on entry to the node
         self.seen: Dict[int, list] = {}        # node id -> [(label, value | _NoValue instance, path)]
+        self.tainted: Dict[int, list] = {}     # node id -> [(label, text of the undecided test)] for observations on such paths
+        self.p, self.f = project, func
 
     def ev(self, e, env: dict):
         e = _unwrap_cast(e)
@@ -2886,7 +3100,14 @@ class _EffectiveTypes:
         if isinstance(e, ast.Name):
             if e.id in env:
                 return env[e.id]
+            v = _module_literal(self.p, self.f, e) if self.f is not None else UNKNOWN      # _ANY = '*/*' at module level
+            if v is not UNKNOWN:
+                return v
             raise _NoValue(e.id)
+        if isinstance(e, ast.Attribute) and self.f is not None:
+            v = _module_literal(self.p, self.f, e)
+            if v is not UNKNOWN:
+                return v
         if isinstance(e, ast.NamedExpr) and isinstance(e.target, ast.Name):
             try:
                 v = self.ev(e.value, env)
@@ -3029,6 +3250,8 @@ class _EffectiveTypes:
                 except _NoValue as ex:
                     got = ex
                 self.seen.setdefault(nid, []).append((label, got, path))
+                if self.UNDECIDED in env:
+                    self.tainted.setdefault(nid, []).append((label, env[self.UNDECIDED]))
             before = dict(env)
             outcome = None
             if n.kind == 'test':
@@ -3039,6 +3262,11 @@ class _EffectiveTypes:
                     for x in n.walk():
                         if isinstance(x, ast.NamedExpr):
                             self._unbind(x.target, env)
+                    # both ways are followed; when the test reads one of the tracked texts the two arms are NOT both
+                    # feasible for this requested type: what is observed behind it is not a verdict
+                    if any(isinstance(x, ast.Name) and isinstance(x.ctx, ast.Load) and x.id in before and x.id != self.UNDECIDED
+                           for x in n.walk()):
+                        env[self.UNDECIDED] = before[self.UNDECIDED] = before.get(self.UNDECIDED) or short(n.ast, 60)
             elif n.kind == 'stmt' and isinstance(n.ast, ast.Assign):
                 try:
                     v = self.ev(n.ast.value, env)
@@ -3163,7 +3391,7 @@ def r4_resolution(run):
         if len(wanted) != 1 or n.id in observe:
             raise UnknownIdiom('resolver: best-match call %s' % short(c, 100))
         observe[n.id] = wanted[0]
-    interp = _EffectiveTypes(cfg, observe)
+    interp = _EffectiveTypes(cfg, observe, p, res)
     for req in _REQ_DOMAIN:
         interp.run(req, {mt: req, dflt: _DEFAULT_MARK})
     for n in L + B:
@@ -3176,6 +3404,9 @@ def r4_resolution(run):
             raise UnknownIdiom('resolver: media type handed to the %s cannot be evaluated for requested type %r: %s' % (
                 kind, unread[0][0], short(observe[n.id], 60)))
         wrong = [(req, v, pth) for (req, v, pth) in got if v != (req if req == 'a/b' else _DEFAULT_MARK)]
+        if wrong and interp.tainted.get(n.id):
+            raise UnknownIdiom('resolver: the test %s reads the requested type and cannot be evaluated for requested type %r' % (
+                interp.tainted[n.id][0][1], interp.tainted[n.id][0][0]))
         table = sorted({'requested %r -> %s' % (req, _show_type(v)) for (req, v, _p) in got})
         what = "resolver: the %s is asked about the default when the requested type is missing or '*/*', and about the requested " \
                'type itself otherwise (the same effective type for both lookups)' % kind
@@ -4385,11 +4616,13 @@ def r11_quality_stored_as_parsed(run):
         if isinstance(e, ast.Subscript):
             if isinstance(e.slice, ast.Slice):
                 return 'cut' if q_text(e.value, depth) in ('param', 'cut') else 'unknown'
-            if isinstance(e.slice, ast.Constant) and e.slice.value == 'q':
+            key = _lit(p, f, e.slice)                    # `_Q = 'q'` at module level is the literal
+            if isinstance(key, ast.Constant) and key.value == 'q':
                 return 'param'
             return 'unknown'
         if isinstance(e, ast.Call) and isinstance(e.func, ast.Attribute):
-            if e.func.attr in ('pop', 'get') and e.args and isinstance(e.args[0], ast.Constant) and e.args[0].value == 'q':
+            key = _lit(p, f, e.args[0]) if e.args else None
+            if e.func.attr in ('pop', 'get') and isinstance(key, ast.Constant) and key.value == 'q':
                 return 'param'
             if e.func.attr in ('strip', 'lstrip', 'rstrip') and not e.args:
                 return q_text(e.func.value, depth)
@@ -5482,6 +5715,9 @@ class _ParseModel:
     def resolved(self, q, e):
         import builtins
         import importlib
+        lit = _module_literal(self.p, self.f, e)       # `_Q = 'q'` bound once at module level is its value
+        if lit is not UNKNOWN:
+            return lit
         if q is None:
             raise _OutOfModel('name %s' % short(e, 40))
         if q in self.p.classes:
@@ -6406,6 +6642,8 @@ class _Stripped:
             if isinstance(e, ast.Name):
                 return self.name(f, e.id, at, index, depth + 1)
             raise UnknownIdiom('%s: element %d of %s' % (f.qual, index, short(e, 60)))
+        if isinstance(e, (ast.Name, ast.Attribute)):
+            e = _lit(self.p, f, e)
         if isinstance(e, ast.Constant) and isinstance(e.value, str):
             return e.value == e.value.strip()
         if isinstance(e, ast.Call) and isinstance(e.func, ast.Attribute):
@@ -6497,7 +6735,9 @@ def r16_wildcard_sees_stripped_member(run):
         if isinstance(n, ast.Compare) and len(n.ops) == 1 and isinstance(n.ops[0], (ast.Eq, ast.NotEq, ast.In, ast.NotIn)):
             a, b = n.left, n.comparators[0]
             for x, y in ((a, b), (b, a)):
-                consts = [y] if isinstance(y, ast.Constant) else list(y.elts) if isinstance(y, (ast.Tuple, ast.List, ast.Set)) else []
+                y = _lit(p, f, y)                     # `_WILDCARD = '*'` at module level is the literal
+                consts = [y] if isinstance(y, ast.Constant) else [_lit(p, f, c) for c in y.elts] \
+                    if isinstance(y, (ast.Tuple, ast.List, ast.Set)) else []
                 if consts and any(isinstance(c, ast.Constant) and c.value == '*' for c in consts):
                     tests.append((n, x))
     if not tests:
